@@ -5,6 +5,7 @@ from __future__ import annotations
 
 import itertools
 import json
+import os
 from typing import Any, Dict, List, Optional
 
 from ..core import worker as wk
@@ -30,18 +31,26 @@ SPEC = {
                   "instance, the end of the last stream sends GOAWAY and closes (after_trigger_refusals); every idle connection, "
                   "fresh prior-knowledge HTTP/2 included, is gone at the trigger instant (idle_closed); a handler is cancelled only at "
                   "or after trigger + graceful_timeout and never a request due before that; a due request can always be delivered and "
-                  "the clock never passes its due instant (in_grace_delivered, due_request_finishes); lifespan.shutdown is put after "
+                  "the clock never passes its due instant (in_grace_delivered, due_request_finishes); when a response has been delivered "
+                  "the connection goes back to idle exactly when the code's own `_maybe_recycle` guard (extracted: Guards.h11Recycle) "
+                  "holds, and once terminated it is closed, the request pipelined behind it (or arriving later) is never enabled "
+                  "and starts no application (finish_follows_recycle_guard, recycle_guard_needs_not_terminated, "
+                  "not_recycled_after_trigger); lifespan.shutdown is put after "
                   "the drain (then_lifespan).  History witnesses about Runtime.asyncioBeforeFixes / trioBeforeFixes: f18_run_before_fix, "
                   "bounded_fails_when_wait_closed_blocks, idle_closed_failed_before_fix.",
     "level_note": "Trusted: Lean kernel; the hand-written worker model (tied by differential runs only); the Runtime flags are measured "
                   "by probes on the code and interpreter under test and must equal the Lean constants Runtime.asyncio / Runtime.trio "
-                  "(a mismatch is reported as a disagreement); connection kinds are abstractions of what TCPServer/H11Protocol/H2Protocol "
+                  "(a mismatch is reported as a disagreement); two pieces of the exit path are read off the source by tools/extract.py "
+                  "(Guards.lean): what asyncio's worker_serve awaits between terminated.set() and the bounded wait for the handlers "
+                  "(Runtime.asyncio.waitClosedBlocksOnConnections IS that constant, so `bounded` stops type-checking when "
+                  "server.wait_closed() is awaited there) and the guard of H11Protocol._maybe_recycle; connection kinds are abstractions of what TCPServer/H11Protocol/H2Protocol "
                   "do with `context.terminated` (idle task, _maybe_recycle, stream refusal, GOAWAY) — the protocol layer itself is the "
                   "subject of other properties (frame-level delivery, e.g. END_STREAM of the last HTTP/2 response, is judged by the "
                   "monitor only: known finding F30); real-clock runs assert order exactly and instants with >= 1 s slack; 'idle "
                   "connections are closed in the same instant' is measured as 'EOF within 0.3 s of the trigger'.",
-    "rule": "scenario = worker x trigger source x set of 0-3 connections of kinds {idle_h1, fresh_h1, midhead_h1, short_h1, long_h1, "
-            "hang_h1, idle_h2, fresh_h2, open_h2_short, open_h2_long, ws} + one connection attempt after the trigger (quick: every "
+    "rule": "scenario = worker x trigger source x set of 0-3 connections of kinds {idle_h1, fresh_h1, midhead_h1, short_h1, "
+            "pipelined_h1 (a second request already waiting behind the one in progress), late_request_h1 (the next request arrives "
+            "after the trigger), long_h1, hang_h1, idle_h2, fresh_h2, open_h2_short, open_h2_long, ws} + one connection attempt after the trigger (quick: every "
             "kind alone, a few mixes, max_requests source; thorough: all pairs, sampled triples, two trigger offsets); distinct = "
             "(worker, source, kind multiset, offset); non-trivial = at least one connection is open at the trigger",
     "trusted": ["asyncio / trio cancel-scope deadlines / sockets (measured, real clock)",
@@ -56,7 +65,7 @@ SPEC = {
     "assumptions": ["max_app_queue_size >= 2", "request handlers finish at the instant their scripted sleep ends (+ scheduling slack)"],
 }
 
-G, S = 0.4, 0.4          # graceful_timeout, shutdown_timeout
+G, S = 0.4, 1.6          # graceful_timeout, shutdown_timeout (far apart: using one for the other is visible through the slack)
 T0 = 0.5                 # trigger instant
 SLACK = 1.0
 IDLE_SLACK = 0.3         # "closed in the same instant"
@@ -84,7 +93,7 @@ def conn_steps(kind: str, cid: int, off: float) -> (str, List[list]):
     if kind == "late_request_h1":
         # the next request on a keep-alive connection arrives after the trigger, while the previous one is in progress
         return "h1", [["at", t_req - 0.02], ["connect"], ["at", t_req], ["get", f"/d/{short_ms}/{cid}"],
-                      ["at", T0 + 0.08], ["get", f"/d/0/{cid}p"], ["read", 3.0], ["read", 1.0], ["wait_close", 3.5]]
+                      ["after_trigger", 0.08], ["get", f"/d/0/{cid}p"], ["read", 3.0], ["read", 1.0], ["wait_close", 3.5]]
     if kind == "long_h1":
         return "h1", [["at", t_req - 0.02], ["connect"], ["at", t_req], ["get", f"/d/{long_ms}/{cid}"], ["read", 3.2], ["wait_close", 3.5]]
     if kind == "hang_h1":
@@ -95,10 +104,10 @@ def conn_steps(kind: str, cid: int, off: float) -> (str, List[list]):
         return "h2", [["at", 0.1], ["connect"], ["wait_close", 3.5]]
     if kind == "open_h2_short":
         return "h2", [["at", max(0.08, t_req - 0.2)], ["connect"], ["at", t_req], ["stream", f"/d/{short_ms}/{cid}a"], ["stream", f"/d/{short_ms + 60}/{cid}b"],
-                      ["pump", T0 + 0.1], ["at", T0 + 0.1], ["stream", f"/d/0/{cid}late"], ["wait_close", 3.5]]
+                      ["pump_after_trigger", 0.1], ["stream", f"/d/0/{cid}late"], ["wait_close", 3.5]]
     if kind == "open_h2_long":
         return "h2", [["at", max(0.08, t_req - 0.2)], ["connect"], ["at", t_req], ["stream", f"/d/{long_ms}/{cid}a"],
-                      ["pump", T0 + 0.1], ["at", T0 + 0.1], ["stream", f"/d/0/{cid}late"], ["wait_close", 3.5]]
+                      ["pump_after_trigger", 0.1], ["stream", f"/d/0/{cid}late"], ["wait_close", 3.5]]
     if kind == "ws":
         return "ws", [["at", 0.25], ["connect"], ["wait_close", 3.5]]
     raise ValueError(kind)
@@ -109,6 +118,10 @@ KINDS = ["idle_h1", "fresh_h1", "midhead_h1", "short_h1", "pipelined_h1", "late_
 IDLE_KINDS = {"idle_h1", "fresh_h1", "midhead_h1", "idle_h2", "fresh_h2"}
 # HTTP/1 connections whose request in progress at the trigger ends inside the grace period: one response, then closed
 IN_GRACE_H1 = {"short_h1", "pipelined_h1", "late_request_h1"}
+# what the application must have recorded before the trigger for every connection to be in the phase its kind names
+# (steps after the trigger are timed from the instant shutdown was actually triggered: `after_trigger`)
+DONE_BEFORE = {"idle_h1": 1, "idle_h2": 1}
+LATE_TOL = 0.06          # a step of the harness itself later than this: the run is repeated (the machine was busy), see evaluate
 SCOPES_BEFORE = {"idle_h1": 1, "fresh_h1": 0, "midhead_h1": 0, "short_h1": 1, "pipelined_h1": 1, "late_request_h1": 1, "long_h1": 1, "hang_h1": 1,
                  "idle_h2": 1, "fresh_h2": 0, "open_h2_short": 2, "open_h2_long": 1, "ws": 1}
 
@@ -121,19 +134,24 @@ def scenario(worker: str, kinds: List[str], source: str = "callable", off: float
     cfg: Dict[str, Any] = {"startup_timeout": 0.4, "shutdown_timeout": S, "graceful_timeout": G}
     trigger_at: Optional[float] = T0
     n = len(kinds)
+    before = {"scope": sum(SCOPES_BEFORE[k] for k in kinds), "http_done": sum(DONE_BEFORE.get(k, 0) for k in kinds)}
+    extra: Dict[str, Any] = {}
     if source == "max_requests":
         # the request that exceeds max_requests is itself in progress when shutdown starts and must be delivered
         cfg["max_requests"] = sum(SCOPES_BEFORE[k] for k in kinds)
         trigger_at = None
         clients.append({"id": n, "kind": "h1", "ckind": "trigger_request",
-                        "steps": [["at", T0 - 0.03], ["connect"], ["at", T0], ["get", f"/d/150/{n}"], ["read", 2.0], ["wait_close", 3.0]]})
+                        "steps": [["at", T0 - 0.03], ["connect"], ["at_counts", T0, before], ["get", f"/d/150/{n}"], ["read", 2.0], ["wait_close", 3.0]]})
+        extra["trigger_path"] = f"/d/150/{n}"
         n += 1
+    else:
+        extra["trigger_after"] = before
     # somebody knocks after the trigger
     clients.append({"id": n, "kind": "h1", "ckind": "late_connect",
-                    "steps": [["at", T0 + 0.12], ["connect"], ["get", f"/d/0/{n}"], ["read", 0.6]]})
+                    "steps": [["after_trigger", 0.12], ["connect"], ["get", f"/d/0/{n}"], ["read", 0.6]]})
     return {"property": "C15", "worker": worker, "kinds": kinds, "source": source, "off": off, "lifespan": LS,
-            "config": cfg, "clients": clients, "trigger_at": trigger_at,
-            "observe_until": T0 + G + S + SLACK + 0.1, "client_grace": 0.4}
+            "config": cfg, "clients": clients, "trigger_at": trigger_at, "nominal_trigger": T0, "start_when_listening": True,
+            "late_tolerance": LATE_TOL, "observe_until": T0 + G + S + SLACK + 0.1, "client_grace": 0.4, **extra}
 
 
 def gen(ctx: Ctx) -> List[dict]:
@@ -276,13 +294,20 @@ def monitors(ctx: Ctx, sc: dict, obs: dict, iv: dict) -> None:
 # --------------------------------------------------------------------------------------------------------------
 # model vs implementation
 # --------------------------------------------------------------------------------------------------------------
-def compare(ctx: Ctx, sc: dict, iv: dict, m: dict) -> None:
+def compare(ctx: Ctx, sc: dict, iv: dict, m: dict, T: Optional[float] = None) -> None:
     mv = wk.model_view(m)
     diffs = []
+    # the model triggers at the instant the trigger is due, the harness when the connections have reached their phase:
+    # what the model predicts for the time from the trigger on is compared on the clock of the actual trigger
+    shift = (T - mv["trigger_s"]) if (T is not None and mv["trigger_s"] is not None) else 0.0
+
+    def on_impl_clock(t: float) -> float:
+        return t + shift if (mv["trigger_s"] is not None and t >= mv["trigger_s"] - 1e-9) else t
+
     if mv["outcome"] != iv["outcome"]:
         diffs.append(("serve outcome", mv["outcome"], iv["outcome"]))
-    if mv["outcome"] == iv["outcome"] == "return" and abs(mv["return_s"] - iv["return_s"]) > 0.5:
-        diffs.append(("return instant", mv["return_s"], iv["return_s"]))
+    if mv["outcome"] == iv["outcome"] == "return" and abs(on_impl_clock(mv["return_s"]) - iv["return_s"]) > 0.5:
+        diffs.append(("return instant", on_impl_clock(mv["return_s"]), iv["return_s"]))
     if mv["received"] != iv["received"]:
         diffs.append(("lifespan messages received", mv["received"], iv["received"]))
     for c in sc["clients"]:
@@ -308,7 +333,7 @@ def compare(ctx: Ctx, sc: dict, iv: dict, m: dict) -> None:
                 diffs.append((f"client {cid} ({k}) application instances started", mp["scopes"], i_scopes))
             # not recycled after the response (`_maybe_recycle` once terminated): closed at that instant
             if mp.get("closed_after_delivery_t") is not None:
-                want = mp["closed_after_delivery_t"] * wk.TICK
+                want = on_impl_clock(mp["closed_after_delivery_t"] * wk.TICK)
                 if ip["closed_t"] is None or abs(ip["closed_t"] - want) > 0.5:
                     diffs.append((f"client {cid} ({k}) closed after its response at", want, ip["closed_t"]))
         if c["kind"] == "h2":
@@ -328,7 +353,7 @@ def compare(ctx: Ctx, sc: dict, iv: dict, m: dict) -> None:
                 diffs.append((f"client {cid} ({k}) streams refused", mp["refused_streams"], i_ref))
         # when it was closed (model instant known for closed_idle / cancelled / goaway / delivered-then-closed)
         if mp["fate"] in ("closed_idle", "cancelled", "goaway") and mp["fate_t"] is not None:
-            want = mp["fate_t"] * wk.TICK
+            want = on_impl_clock(mp["fate_t"] * wk.TICK)
             if ip["closed_t"] is None or abs(ip["closed_t"] - want) > 0.5:
                 diffs.append((f"client {cid} ({k}) closed ({mp['fate']}) at", want, ip["closed_t"]))
         if mp["fate"] == "live" and iv["outcome"] != "stuck" and mv["outcome"] != "stuck" and k != "late_connect" \
@@ -342,13 +367,36 @@ def compare(ctx: Ctx, sc: dict, iv: dict, m: dict) -> None:
 FLAGS: Dict[str, dict] = {}
 
 
+def parallelism(most: int) -> int:
+    """scenario processes side by side: what the machine has to spare right now (the verdict does not depend on it)"""
+    try:
+        spare = (os.cpu_count() or 4) - os.getloadavg()[0]
+    except OSError:
+        spare = most
+    return max(1, min(most, max(4, int(spare))))
+
+
 def evaluate(ctx: Ctx, scs: List[dict], procs: int = 14) -> None:
     flags = FLAGS.get("v") or FLAGS.setdefault("v", wk.probe_flags())
     ctx.extra["runtime_flags_measured"] = flags
     if not ctx.extra.get("runtime_constants_checked"):
         ctx.extra["runtime_constants_checked"] = True
         wk.check_runtime_constants(ctx, flags)
-    obs = wk.run_many(scs, procs=procs)
+    obs = wk.run_many(scs, procs=parallelism(procs))
+    # timing discipline: a run in which the harness itself was late (client step, trigger, or the application had not reached
+    # the phase the scenario names when the trigger was due: a busy machine) is not the scenario as written.  It is repeated,
+    # with less running beside it, at most twice - a decision taken on the harness's own lateness records only, before and
+    # independent of any monitor; the last observation is judged whatever its timing
+    for attempt, width in ((1, 4), (2, 1)):
+        again = [i for i, o in enumerate(obs) if wk.events_of(o, "harness_late")]
+        if not again:
+            break
+        ctx.count("repeated_for_harness_lateness", f"attempt {attempt}", len(again))
+        for i, o in zip(again, wk.run_many([scs[i] for i in again], procs=width)):
+            obs[i] = o
+    left = sum(1 for o in obs if wk.events_of(o, "harness_late"))
+    if left:
+        ctx.count("judged_despite_harness_lateness", "scenarios", left)
     model = ctx.model([wk.model_request(sc, "c15.run", flags) for sc in scs])
     for i, (sc, o) in enumerate(zip(scs, obs)):
         iv = wk.impl_view(o)
@@ -368,7 +416,7 @@ def evaluate(ctx: Ctx, scs: List[dict], procs: int = 14) -> None:
             r = model[i]
             if "ok" not in r:
                 raise wk.HarnessFailure(f"hcdriver rejected scenario {sc['kinds']}/{sc['worker']}: {r}")
-            compare(ctx, sc, iv, r["ok"])
+            compare(ctx, sc, iv, r["ok"], trigger_instant(sc, iv, o))
 
 
 def run(ctx: Ctx) -> None:
